@@ -128,6 +128,9 @@ class ExprMixin:
         if base.s == NONE:
             exc.append((st, imp_value("AttributeError", node.lineno, ast.unparse(node))))
             return []
+        if base.s == EXC and attr in self.spec.exc_attrs:
+            from .state import Ctx
+            return [(st, S.lift(self.spec.exc_attrs[attr](Ctx(self, st))))]
         if base.s.pyside:
             return [(st, V(FUNC, ("attr", base, attr)))]
         key = "%s.%s" % (getattr(base.s, "oname", base.s.name), attr)
